@@ -215,7 +215,11 @@ func (c *ColumnImage) JSONValue() interface{} {
 		// text is always written as a JSON string (a []byte would be written
 		// as base64, which cannot be told apart from text when reading)
 		if rv := reflect.ValueOf(value); rv.IsValid() && rv.Kind() == reflect.Slice && rv.Type().Elem().Kind() == reflect.Uint8 {
-			value = string(rv.Bytes())
+			if rv.IsNil() {
+				value = nil // SQL NULL
+			} else {
+				value = string(rv.Bytes())
+			}
 		}
 	}
 	return value
